@@ -13,7 +13,8 @@ def run(tier, rep):
     strides = {"text": 12, "children": 12, "attrs": 8, "names": 1, "mixed": 6} if tier == "quick" else {"text": 1, "children": 1, "attrs": 1, "names": 1, "mixed": 1}
 
     def relation(rep, inst, cases):
-        pc.run_relation(rep, "c11-rewrite", inst, cases, stride=strides[inst], extra=["--all", 0 if tier == "quick" else 1])
+        pc.run_relation(rep, "c11-rewrite", inst, cases, stride=strides[inst],
+                        extra=["--all", 0 if tier == "quick" else 1, "--boundary", 1 if inst == "text" else 0])
 
     pc.check(rep, "C11", tier, ["text", "children", "attrs", "mixed", "names"], set(), None, 0, rule=RULE, relation=relation,
              invariants=["TypeOK", "FormInsensitive", "Exact"], nontrivial=lambda x: x["expect"]["st"] == "ok")
